@@ -1098,6 +1098,15 @@ package argmapper
 //@   ensures [final-error-returned] imp(r.buildErr == nil && len(r.out) > 0, result == errOf(lastOut(r)))
 //@   ensures [error-means-nothing-loaded] imp(result != nil, forall(j, int, imp(0 <= j && j < len(vs.values), vs.values[j].Value == old(vs.values[j].Value))))
 //@   ensures [struct-form-loaded-from-the-first-output] imp(r.buildErr == nil && len(r.out) > 0 && errOf(lastOut(r)) == nil && vs.structType != nil && vs.structPointers == 0, result == nil && forall(j, int, imp(0 <= j && j < len(vs.values), vs.values[j].Value == vfield(r.out[0], vs.values[j].index))))
+// Input / Output: introspection hands out the function's own value sets (C14)
+//@ func (*Func).Input
+//@   requires f != nil
+//@   pure
+//@   ensures [the-input-set-itself] result == f.input
+//@ func (*Func).Output
+//@   requires f != nil
+//@   pure
+//@   ensures [the-output-set-itself] result == f.output
 // Arg: a value rendered as the call option that supplies it under its own label (C15 C16)
 //@ ghost argOf(o Arg, n string, x any, st string) bool = ite(n != "", ite(st != "", fncode(o) == litcode("argmapper.NamedSubtype$1") && captured(o, "argmapper.NamedSubtype$1", "n") == n && captured(o, "argmapper.NamedSubtype$1", "v") == x && captured(o, "argmapper.NamedSubtype$1", "st") == st, fncode(o) == litcode("argmapper.Named$1") && captured(o, "argmapper.Named$1", "n") == n && captured(o, "argmapper.Named$1", "v") == x), ite(st != "", fncode(o) == litcode("argmapper.TypedSubtype$1") && captured(o, "argmapper.TypedSubtype$1", "v") == x && captured(o, "argmapper.TypedSubtype$1", "st") == st, fncode(o) == litcode("argmapper.Typed$1") && len(captured(o, "argmapper.Typed$1", "vs")) == 1 && captured(o, "argmapper.Typed$1", "vs")[0] == x))
 //@ func (*Value).Arg
